@@ -78,7 +78,7 @@ def size_options(topo, nx, ny, G):
     return o
 
 
-def tokamak_arrays(geometry, nR=65, nZ=65, mirror=False, psi_sign=1.0, psi_offset=0.0):
+def tokamak_arrays(geometry, nR=65, nZ=65, mirror=False, psi_sign=1.0, psi_offset=0.0, psi1d_rmax=None):
     r1d = np.linspace(1.0, 2.0, nR)
     z1d = np.linspace(-0.7, 0.7, nZ)
     r2d, z2d = np.meshgrid(r1d, z1d, indexing="ij")
@@ -87,7 +87,7 @@ def tokamak_arrays(geometry, nR=65, nZ=65, mirror=False, psi_sign=1.0, psi_offse
         psi2d = f(r2d, -z2d)
     else:
         psi2d = f(r2d, z2d)
-    psi1d = f(np.linspace(R0, 1.2 * R0, nR), 0.0 if "dn" in geometry or True else 0.0)
+    psi1d = f(np.linspace(R0, 1.2 * R0 if psi1d_rmax is None else psi1d_rmax, nR), 0.0)
     return r1d, z1d, psi_sign * psi2d + psi_offset, psi_sign * psi1d + psi_offset
 
 
@@ -110,10 +110,10 @@ def quiet():
 
 
 def make_tokamak(geometry, options, *, fpol=None, pressure=None, wall=None, nR=65, nZ=65, mirror=False,
-                 psi_sign=1.0, make_regions=True, nonorth=None):
+                 psi_sign=1.0, make_regions=True, nonorth=None, psi1d_rmax=None):
     from hypnotoad.cases import tokamak
 
-    r1d, z1d, psi2d, psi1d = tokamak_arrays(geometry, nR, nZ, mirror=mirror, psi_sign=psi_sign)
+    r1d, z1d, psi2d, psi1d = tokamak_arrays(geometry, nR, nZ, mirror=mirror, psi_sign=psi_sign, psi1d_rmax=psi1d_rmax)
     if wall is None:
         wall = default_wall(mirror=mirror)
     kw = {}
